@@ -138,6 +138,21 @@ def qcow2_spec(draw, tier="quick", layer=0, size_clusters=None, cluster_bits=Non
         elif k == "c":
             extra = draw(st.integers(0, 2))
         clusters.append([gi, k, slot_of.get(gi, 0), extra])
+    motif = None
+    if ext and ng >= 4 and not interleave and draw(st.integers(0, 3)) == 0:
+        # three consecutive guest clusters stored back to back; the middle one allocated up to sub-cluster k and unallocated
+        # behind it (k near the end), its neighbours fully allocated: a run that starts mid-cluster in the first one has to stop
+        # inside the second although the third continues physically
+        g0 = draw(st.integers(0, ng - 3))
+        base_slot = max([c[2] for c in clusters if c[1] in ("n", "Z")] + [0]) + 2
+        k = draw(st.sampled_from([16, 24, 28, 30, 31]))
+        mid = draw(st.sampled_from([[(1 << k) - 1, 0], [(1 << k) - 1, 1 << k], [0xFFFFFFFF & ~(1 << k), 0]]))
+        clusters = [c for c in clusters if c[0] not in (g0, g0 + 1, g0 + 2)]
+        clusters += [[g0, "n", base_slot, [0xFFFFFFFF, 0]], [g0 + 1, "n", base_slot + 1, mid], [g0 + 2, "n", base_slot + 2, [0xFFFFFFFF, 0]]]
+        clusters.sort()
+        sub = cs // 32
+        motif = [g0 * cs + draw(st.sampled_from([1, 2, 4, 16, 31])) * sub, 2 * cs + draw(st.sampled_from([0, sub, cs // 2]))]
+        kinds = [c[1] for c in clusters]
     has_comp = any(k == "c" for k in kinds)
     csize_shift = 62 - (cb - 8)
     far_pool = [0, 0, 0, 1 << 32, (1 << 32) - cs, (1 << 40) + 5 * cs]
@@ -150,7 +165,7 @@ def qcow2_spec(draw, tier="quick", layer=0, size_clusters=None, cluster_bits=Non
     comp_far = draw(st.sampled_from([0, 0, 0, (1 << csize_shift) - 64 * cs, 1 << (csize_shift - 1)])) if has_comp else 0
     spec = {
         "version": version, "cluster_bits": cb, "size": size, "ext_l2": ext, "data_file": data_file,
-        "data_file_named": draw(st.sampled_from([True, True, False])),
+        "data_file_named": draw(st.sampled_from([True, True, False])), "motif_request": motif,
         "clusters": clusters, "l2_interleave": interleave, "l2_slots": l2_slots, "l2_reverse": draw(st.booleans()),
         "meta_order": draw(st.permutations(["l1", "refcount", "snap", "l2"])), "meta_gap": draw(st.sampled_from([0, 0, 1])),
         "far_base": draw(st.sampled_from(far_pool)), "copied": draw(st.booleans()), "l1_extra": draw(st.sampled_from([0, 0, 1, 3])),
@@ -204,6 +219,10 @@ def strategy_(draw, tier):
     cs = 1 << spec["cluster_bits"]
     unit = cs // 32 if spec["ext_l2"] and draw(st.booleans()) else cs
     spec["requests"] = draw(strat.requests(spec["size"], unit, count=6, points=request_points(spec), whole_limit=2 << 20))
+    if spec.get("motif_request"):
+        off, n = spec["motif_request"]
+        if off < spec["size"]:
+            spec["requests"].append([off, n])
     span = cs * (cs // (16 if spec["ext_l2"] else 8))
     if spec["size"] > span:
         # always: a request that starts inside the last cluster in front of an L1 boundary and ends behind it
